@@ -61,3 +61,176 @@ Proof.
   - destruct (N.ltb_spec (len buf) n); [exact I|]. unfold len in *. rewrite skipn_length. lia.
   - destruct (N.ltb_spec (len buf) n); [destruct Conn_skip_needs_body; exact I|]. unfold len in *. rewrite skipn_length. lia.
 Qed.
+
+(* ---- prefix stability: what was decided on a buffer is decided the same way when more bytes follow ---- *)
+Lemma len_app_N {A} (a b : list A) : len (a ++ b) = len a + len b.
+Proof. unfold len. rewrite app_length. lia. Qed.
+
+Lemma nthN_app_l (buf x : bytes) i : i < len buf -> nthN (buf ++ x) i = nthN buf i.
+Proof. intros H. unfold nthN. apply nth_error_app1. unfold len in H. lia. Qed.
+
+Lemma slice_app_l (buf x : bytes) o k : o + k <= len buf -> slice (buf ++ x) o k = slice buf o k.
+Proof.
+  intros H. unfold slice, len in *. rewrite skipn_app, firstn_app.
+  replace (N.to_nat k - length (skipn (N.to_nat o) buf))%nat with 0%nat by (rewrite skipn_length; lia).
+  cbn [firstn]. apply app_nil_r.
+Qed.
+
+Lemma rd32_app_l (buf x : bytes) o : o + 4 <= len buf -> rd32 (buf ++ x) o = rd32 buf o.
+Proof. intros H. unfold rd32. rewrite slice_app_l by exact H. reflexivity. Qed.
+
+Ltac fin := cbv beta iota; first [exact I | reflexivity].
+Ltac split_ifs := repeat match goal with
+                         | |- context [if ?c then _ else _] => destruct c eqn:?
+                         end.
+
+Theorem parse_frame_stable buf x :
+  match parse_frame buf with
+  | PFrame m n => parse_frame (buf ++ x) = PFrame m n
+  | PUnknown id n => parse_frame (buf ++ x) = PUnknown id n
+  | PError => parse_frame (buf ++ x) = PError
+  | PIncomplete => True
+  | PPanic => True
+  end.
+Proof.
+  pose proof (parse_frame_bounds buf) as B.
+  unfold parse_frame in *. rewrite len_app_N. unfold_consts.
+  destruct (len buf <? 4) eqn:E1; [fin|].
+  replace (len buf + len x <? 4) with false by lia.
+  rewrite rd32_app_l by lia. set (L := rd32 buf 0) in *.
+  destruct (L =? 0) eqn:E2; [fin|].
+  destruct (len buf <? 4 + 1) eqn:E3; [fin|].
+  replace (len buf + len x <? 4 + 1) with false by lia.
+  rewrite (nthN_app_l buf x 4) by lia. rewrite (nthN_app_l buf x 0) by lia.
+  destruct (nthN buf 4) as [id|]; [|fin]. destruct (nthN buf 0) as [pl|]; [|fin].
+  destruct (negb (id =? 84) && (65536 <? L)) eqn:E4; [fin|].
+  unfold dispatch, wrong_len in *. unfold_consts. cbn [Wire_wrong_length_is_error] in *.
+  change (len Handshake_PROTOCOL_ID) with 19 in *.
+  set (A := len buf) in *. set (A' := A + len x).
+  assert (HA : A <= A') by (unfold A'; lia).
+  destruct (id =? 84).
+  { destruct (pl =? 19); [|fin]. destruct (A <? 68) eqn:EA; [fin|].
+    replace (A' <? 68) with false by lia. rewrite !slice_app_l by (unfold A in *; lia).
+    destruct (bytes_eqb (slice buf 1 19) _) ; fin. }
+  destruct (id =? 0). { destruct (L =? 1) ; fin. }
+  destruct (id =? 1). { destruct (L =? 1) ; fin. }
+  destruct (id =? 2). { destruct (L =? 1) ; fin. }
+  destruct (id =? 3). { destruct (L =? 1) ; fin. }
+  destruct (id =? 4).
+  { destruct (L =? 5) eqn:EL; cbn [andb].
+    - destruct (4 + L <=? A) eqn:EA; [|fin]. replace (4 + L <=? A') with true by lia.
+      rewrite rd32_app_l by (unfold A in *; lia). reflexivity.
+    - fin. }
+  destruct (id =? 5).
+  { destruct (4 + L <=? A) eqn:EA; [|fin]. replace (4 + L <=? A') with true by lia.
+    rewrite slice_app_l by (unfold A in *; lia). fin. }
+  destruct (id =? 6).
+  { destruct (L =? 13) eqn:EL; cbn [andb].
+    - destruct (4 + L <=? A) eqn:EA; [|fin]. replace (4 + L <=? A') with true by lia.
+      rewrite !rd32_app_l by (unfold A in *; lia). reflexivity.
+    - fin. }
+  destruct (id =? 7).
+  { destruct (9 <=? L) eqn:EL; cbn [andb].
+    - destruct (4 + L <=? A) eqn:EA; [|fin]. replace (4 + L <=? A') with true by lia.
+      destruct (4 + L <? 4 + 1 + 4 + 4); [fin|].
+      rewrite !rd32_app_l by (unfold A in *; lia). rewrite slice_app_l by (unfold A in *; lia). reflexivity.
+    - fin. }
+  destruct (id =? 8).
+  { destruct (L =? 13) eqn:EL; cbn [andb].
+    - destruct (4 + L <=? A) eqn:EA; [|fin]. replace (4 + L <=? A') with true by lia.
+      rewrite !rd32_app_l by (unfold A in *; lia). reflexivity.
+    - fin. }
+  fin.
+Qed.
+
+(* ---- segmentation independence ------------------------------------------------------------------ *)
+Lemma skipn_app_l (buf x : bytes) n : n <= len buf -> skipn (N.to_nat n) (buf ++ x) = skipn (N.to_nat n) buf ++ x.
+Proof.
+  intros H. unfold len in H. rewrite skipn_app. replace (N.to_nat n - length buf)%nat with 0%nat by lia. reflexivity.
+Qed.
+
+Lemma conn_parse_stable buf x : Conn_skip_needs_body = true ->
+  match conn_parse buf with
+  | PDeliver m rest => conn_parse (buf ++ x) = PDeliver m (rest ++ x)
+  | PSkip rest => conn_parse (buf ++ x) = PSkip (rest ++ x)
+  | PFail => conn_parse (buf ++ x) = PFail
+  | _ => True
+  end.
+Proof.
+  intros F. pose proof (parse_frame_stable buf x) as S. pose proof (parse_frame_bounds buf) as B.
+  unfold conn_parse. rewrite F. destruct (parse_frame buf) as [m n|id n| | |]; try exact I.
+  - rewrite S. destruct (N.ltb_spec (len buf) n); [lia|]. rewrite len_app_N.
+    replace (len buf + len x <? n) with false by lia. rewrite skipn_app_l by lia. reflexivity.
+  - destruct (N.ltb_spec (len buf) n); [exact I|]. rewrite S, len_app_N.
+    replace (len buf + len x <? n) with false by lia. rewrite skipn_app_l by lia. reflexivity.
+  - rewrite S. reflexivity.
+Qed.
+
+(* what a byte string means, as a big-step relation over the decisions of Connection::parse_frame:
+   the messages, whether it ends in "need more bytes" or in an error, and the undecoded remainder *)
+Inductive Dec : bytes -> list msg -> sres -> bytes -> Prop :=
+| dec_wait s : conn_parse s = PWait -> Dec s [] SMore s
+| dec_fail s : conn_parse s = PFail -> Dec s [] SBad s
+| dec_deliver s m rest ms r tl : conn_parse s = PDeliver m rest -> Dec rest ms r tl -> Dec s (m :: ms) r tl
+| dec_skip s rest ms r tl : conn_parse s = PSkip rest -> Dec rest ms r tl -> Dec s ms r tl.
+
+(* decoding the first part of a stream and then the rest is decoding the whole *)
+Lemma dec_app s ms rest c : Conn_skip_needs_body = true -> Dec s ms SMore rest ->
+  forall ms2 r2 rest2, Dec (rest ++ c) ms2 r2 rest2 -> Dec (s ++ c) (ms ++ ms2) r2 rest2.
+Proof.
+  intros F D. remember SMore as r eqn:Er. induction D as [s H|s H|s m rst ms r tl H D IH|s rst ms r tl H D IH]; intros ms2 r2 rest2 D2.
+  - exact D2.
+  - discriminate.
+  - pose proof (conn_parse_stable s c F) as S. rewrite H in S. cbn [app]. eapply dec_deliver; [exact S | apply IH; assumption].
+  - pose proof (conn_parse_stable s c F) as S. rewrite H in S. eapply dec_skip; [exact S | apply IH; assumption].
+Qed.
+
+(* the receive side, one read at a time: after the reads `cs` the messages `ms` have been delivered and `buf`
+   is buffered (status SMore), or a decoding error ended it (SBad) *)
+Inductive IncRun : list bytes -> list msg -> sres -> bytes -> Prop :=
+| inc_nil : IncRun [] [] SMore []
+| inc_read cs ms buf c ms2 r2 buf2 : IncRun cs ms SMore buf -> Dec (buf ++ c) ms2 r2 buf2 ->
+    IncRun (cs ++ [c]) (ms ++ ms2) r2 buf2.
+
+(* however the stream is cut into reads, the messages delivered, the outcome and the buffered remainder are
+   those of the whole stream *)
+Theorem segmentation_independent cs ms r buf : Conn_skip_needs_body = true ->
+  IncRun cs ms r buf -> Dec (concat cs) ms r buf.
+Proof.
+  intros F. induction 1 as [|cs ms buf c ms2 r2 buf2 _ IH D].
+  - cbn. apply dec_wait. reflexivity.
+  - rewrite concat_app. cbn [concat]. rewrite app_nil_r. eapply dec_app; eauto.
+Qed.
+
+(* Dec is a function of the byte string: two runs over the same bytes agree *)
+Lemma dec_functional s ms r tl : Dec s ms r tl -> forall ms' r' tl', Dec s ms' r' tl' -> ms = ms' /\ r = r' /\ tl = tl'.
+Proof.
+  induction 1 as [s H|s H|s m rst ms r tl H D IH|s rst ms r tl H D IH]; intros ms' r' tl' D'; inversion D'; subst; try congruence; auto.
+  - match goal with H1 : conn_parse s = PDeliver _ _, H2 : conn_parse s = PDeliver _ _ |- _ => rewrite H1 in H2; injection H2 as <- <- end.
+    destruct (IH _ _ _ ltac:(eassumption)) as (-> & -> & ->). auto.
+  - match goal with H1 : conn_parse s = PSkip _, H2 : conn_parse s = PSkip _ |- _ => rewrite H1 in H2; injection H2 as <- end.
+    apply IH. assumption.
+Qed.
+
+Corollary any_two_segmentations_agree cs1 cs2 ms1 r1 b1 ms2 r2 b2 : Conn_skip_needs_body = true ->
+  concat cs1 = concat cs2 -> IncRun cs1 ms1 r1 b1 -> IncRun cs2 ms2 r2 b2 -> ms1 = ms2 /\ r1 = r2 /\ b1 = b2.
+Proof.
+  intros F E R1 R2. apply (segmentation_independent _ _ _ _ F) in R1. apply (segmentation_independent _ _ _ _ F) in R2.
+  rewrite E in R1. exact (dec_functional _ _ _ _ R1 _ _ _ R2).
+Qed.
+
+(* every byte string has a meaning (the relation is total): strong induction on the length, since every delivered
+   or skipped message consumes bytes *)
+Theorem dec_total s : Conn_skip_needs_body = true -> exists ms r tl, Dec s ms r tl.
+Proof.
+  intros F. remember (length s) as k eqn:Ek. revert s Ek. induction k as [k IH] using lt_wf_ind. intros s Ek.
+  pose proof (conn_parse_progress s) as P. pose proof (conn_parse_total s F) as T.
+  destruct (conn_parse s) as [m rest|rest| | |] eqn:E.
+  - destruct (IH (length rest)) with (s := rest) as (ms & r & tl & D); [unfold len in P; lia | reflexivity|].
+    exists (m :: ms), r, tl. eapply dec_deliver; eauto.
+  - destruct (IH (length rest)) with (s := rest) as (ms & r & tl & D); [unfold len in P; lia | reflexivity|].
+    exists ms, r, tl. eapply dec_skip; eauto.
+  - exists [], SMore, s. apply dec_wait. exact E.
+  - exists [], SBad, s. apply dec_fail. exact E.
+  - contradiction.
+Qed.
